@@ -10,9 +10,12 @@
      short topic} succeeds call by call - exactly one return, nil, and exactly the documented packet
      at the broker (call_ok) - and leaves the system connected and quiescent (resp. disconnected with
      the broker connection closed);
+   - and for programs that also Subscribe on short topics and receive broker messages on them: every
+     broker message reaches exactly one handler invocation of the right subscription
+     (C26_subscriptions_and_delivery);
    - NOT proved (checked on the real client + real gateway by the monitor clauses (26,1)-(26,4) of
-     Checkers/ChkE2E.v on generated programs): Register, Subscribe, Unsubscribe, Publish QoS 2 /
-     registered / predefined topics, sleep cycles, time passing between calls, handler delivery;
+     Checkers/ChkE2E.v on generated programs): Register, Unsubscribe, wildcard subscriptions, Publish
+     QoS 2 / registered / predefined topics, sleep cycles, time passing between calls;
    - REFUTED: "every broker message matching a subscription, including bursts on not-yet-registered
      topics under a wildcard, reaches the handler": of two messages in flight on one unregistered
      topic only the first is delivered (the gateway allocates a second topic ID for the same name,
@@ -22,7 +25,7 @@ From Verif.Base Require Import Bytes.
 From Verif.Codec Require Import Packets Decode Encode.
 From Verif.Gateway Require Import GwTypes GwStep GwWf.
 From Verif.Client Require Import ClTypes ClStep.
-From Verif.System Require Import Compose ComposeProofs.
+From Verif.System Require Import Compose ComposeProofs ComposeProofs2_aux ComposeProofs2.
 From Verif.Checkers Require Import ChkE2E.
 Open Scope N_scope.
 
@@ -42,6 +45,30 @@ Theorem C26_and_final_disconnect :
       cl_st (y_cl y') = Disconnected /\ b_closed (y_br y') = true.
 Proof. exact C26_partial_disconnect. Qed.
 Print Assumptions C26_and_final_disconnect.
+
+(* Subscriptions and handler delivery (short topic names, which need no REGISTER step): every program
+   Connect; e1; ...; en  [; Disconnect] whose events are Ping, Publish QoS 0/1 on a short topic that is not
+   subscribed, Subscribe (QoS 0-2) on a new short topic, and broker messages QoS 0/1 on a subscribed topic
+   (prog_okb, an executable condition on the program) succeeds event by event (run_post): every call
+   returns nil exactly once with exactly its documented packet at the broker and no handler runs; every
+   broker message is delivered to EXACTLY ONE handler invocation - that of the Subscribe call on its
+   topic - with its topic, payload, QoS and flags, and is acknowledged to the broker (QoS 1); the system
+   ends connected and quiescent with exactly the program's subscriptions at the broker and in the client. *)
+Theorem C26_subscriptions_and_delivery :
+  forall cfg id0 (evs : list sys_event), cfg_ok cfg -> prog_okb [] evs = true ->
+    exists os0 oss y', sys_run cfg (sys_init cfg) (SCall id0 AConnect :: evs) = (os0 :: oss, y') /\
+      call_ok cfg id0 AConnect os0 /\ run_post cfg [] evs oss /\ QuietS cfg y' (subs_final [] evs).
+Proof. exact C26_partial_subscriptions. Qed.
+Print Assumptions C26_subscriptions_and_delivery.
+
+Theorem C26_subscriptions_and_final_disconnect :
+  forall cfg id0 (evs : list sys_event) idd, cfg_ok cfg -> prog_okb [] evs = true ->
+    exists os0 oss osd y', sys_run cfg (sys_init cfg) (SCall id0 AConnect :: evs ++ [SCall idd ADisconnect]) =
+                             (os0 :: oss ++ [osd], y') /\
+      call_ok cfg id0 AConnect os0 /\ run_post cfg [] evs oss /\ call_ok cfg idd ADisconnect osd /\
+      cl_st (y_cl y') = Disconnected /\ b_closed (y_br y') = true /\ b_subs (y_br y') = bsubs_of (subs_final [] evs).
+Proof. exact C26_partial_subscriptions_disconnect. Qed.
+Print Assumptions C26_subscriptions_and_final_disconnect.
 
 (* the refutation, as a history of the end-to-end monitor: lossless link, the subscription in place,
    two broker messages back to back on one new topic -> clause (26,4); one after the other -> none *)
